@@ -277,6 +277,11 @@ family! {
     srow S04 (flavor = "match_by_name") { x: i32 [], inner: I0 [flatten] }
     srow S05 (flavor = "match_by_name") { a: i32 [], e: IE [flatten] }
     srow S06 (flavor = "match_by_name") { inner: I0 [flatten, skip], a: i32 [] }
+    // an empty flattened struct (no fields / only skipped fields) declared BEFORE another flattened struct
+    srow IS (flavor = "match_by_name") { q: i32 [skip] }
+    srow S07 (flavor = "match_by_name") { e: IE [flatten], a: i32 [], inner: I0 [flatten] }
+    srow S08 (flavor = "match_by_name") { s: IS [flatten], inner: I0 [flatten] }
+    srow S09 (flavor = "match_by_name") { inner: I0 [flatten], e: IE [flatten], a: i32 [] }
     // ---------------- SerializeRow with flatten (declared order) ----------------
     srow J0 (flavor = "enforce_order") { x: i32 [], y: String [] }
     srow J1 (flavor = "enforce_order", skip_name_checks) { p: i32 [] }
